@@ -4,6 +4,7 @@ follows; a record and a whole file written by `exportSparseData` are split and p
 `importSparseData` token by token.  Core Lean only.
 -/
 import SharkVerif.Lemmas.ExportFmt
+import SharkVerif.Lemmas.Import
 namespace SharkVerif.Import.Export
 open SharkVerif.Import
 
@@ -344,5 +345,320 @@ theorem svmRecords_svmRegr (pts : List RegPoint)
       rcases List.mem_append.mp hc with hc | hc
       · exact (numChar_props (svmNum_chars _ c hc)).2.1
       · exact svmFeats_no_nl _ c hc
+
+/-! ### integers are converted exactly; class labels of `exportSparseData` -/
+
+theorem stripTwos_succ (f m : Nat) (e : Int) :
+    Val.stripTwos (f + 1) m e = if m ≠ 0 ∧ m % 2 = 0 then Val.stripTwos f (m / 2) (e + 1) else (m, e) := rfl
+
+theorem stripTwos_fuel : ∀ (f a : Nat) (e : Int), a ≠ 0 → a < 2 ^ f → Val.stripTwos (f + 1) a e = Val.stripTwos f a e := by
+  intro f
+  induction f with
+  | zero => intro a e h0 h; simp at h; omega
+  | succ f ih =>
+    intro a e h0 h
+    rw [stripTwos_succ (f + 1) a e, stripTwos_succ f a e]
+    by_cases hev : a ≠ 0 ∧ a % 2 = 0
+    · rw [if_pos hev, if_pos hev]
+      exact ih (a / 2) (e + 1) (by omega) (by rw [Nat.pow_succ] at h; omega)
+    · rw [if_neg hev, if_neg hev]
+
+theorem stripTwos_fuel_add (f a : Nat) (e : Int) (h0 : a ≠ 0) (h : a < 2 ^ f) :
+    ∀ k, Val.stripTwos (f + k) a e = Val.stripTwos f a e := by
+  intro k
+  induction k with
+  | zero => rfl
+  | succ k ih =>
+    rw [← Nat.add_assoc, stripTwos_fuel (f + k) a e h0 (Nat.lt_of_lt_of_le h (Nat.pow_le_pow_right (by decide) (by omega))), ih]
+
+theorem stripTwos_shift : ∀ (t f a : Nat) (e : Int), a ≠ 0 →
+    Val.stripTwos (f + t) (a * 2 ^ t) e = Val.stripTwos f a (e + t) := by
+  intro t
+  induction t with
+  | zero => intro f a e _; simp
+  | succ t ih =>
+    intro f a e h0
+    rw [← Nat.add_assoc, stripTwos_succ]
+    have hne : a * 2 ^ (t + 1) ≠ 0 := Nat.mul_ne_zero h0 (Nat.pos_iff_ne_zero.mp (Nat.pow_pos (by decide)))
+    have hev : a * 2 ^ (t + 1) % 2 = 0 := by rw [Nat.pow_succ, ← Nat.mul_assoc]; exact Nat.mul_mod_left _ _
+    have hdiv : a * 2 ^ (t + 1) / 2 = a * 2 ^ t := by rw [Nat.pow_succ, ← Nat.mul_assoc]; exact Nat.mul_div_cancel _ (by decide)
+    rw [if_pos ⟨hne, hev⟩, hdiv, ih f a (e + 1) h0]
+    congr 1
+    push_cast; omega
+
+theorem log2_mul_pow (a t : Nat) (h0 : a ≠ 0) : (a * 2 ^ t).log2 = a.log2 + t := by
+  induction t with
+  | zero => simp
+  | succ t ih =>
+    have : a * 2 ^ (t + 1) = 2 * (a * 2 ^ t) := by rw [Nat.pow_succ, ← Nat.mul_assoc, Nat.mul_comm]
+    rw [this, Nat.log2_two_mul (Nat.mul_ne_zero h0 (Nat.pos_iff_ne_zero.mp (Nat.pow_pos (by decide)))), ih]
+    omega
+
+/-- the normal form does not depend on how the value is split into mantissa and power of two -/
+theorem mk_shift (neg : Bool) (a t : Nat) (e : Int) (h0 : a ≠ 0) : Val.mk neg (a * 2 ^ t) (e - t) = Val.mk neg a e := by
+  have hne : a * 2 ^ t ≠ 0 := Nat.mul_ne_zero h0 (Nat.pos_iff_ne_zero.mp (Nat.pow_pos (by decide)))
+  unfold Val.mk
+  rw [if_neg hne, if_neg h0, log2_mul_pow a t h0]
+  have : a.log2 + t + 1 = (a.log2 + 1) + t := by omega
+  rw [this, stripTwos_shift t (a.log2 + 1) a (e - t) h0]
+  have : e - (t : Int) + t = e := by omega
+  rw [this]
+
+/-- what `stripTwos` keeps: the value -/
+theorem stripTwos_value : ∀ (f m : Nat) (e : Int), ∃ k : Nat,
+    (Val.stripTwos f m e).2 = e + k ∧ (Val.stripTwos f m e).1 * 2 ^ k = m := by
+  intro f
+  induction f with
+  | zero => intro m e; exact ⟨0, by simp [Val.stripTwos]⟩
+  | succ f ih =>
+    intro m e
+    rw [stripTwos_succ]
+    by_cases hev : m ≠ 0 ∧ m % 2 = 0
+    · rw [if_pos hev]
+      obtain ⟨k, h1, h2⟩ := ih (m / 2) (e + 1)
+      refine ⟨k + 1, by rw [h1]; push_cast; omega, ?_⟩
+      rw [Nat.pow_succ, ← Nat.mul_assoc, h2]; omega
+    · rw [if_neg hev]; exact ⟨0, by simp⟩
+
+/-- **integers below 2^53 are converted exactly**: `static_cast<double>(acc)` of the accumulator -/
+theorem roundBin_nat (neg : Bool) (n : Nat) (h0 : n ≠ 0) (h53 : n < 2 ^ 53) :
+    Val.roundBin 53 (-1074) 1024 neg n 1 = Val.mk neg n 0 := by
+  have hL1 := Nat.log2_self_le h0
+  have hL2 := Nat.lt_log2_self (n := n)
+  have hL : n.log2 ≤ 52 := by
+    have := (Nat.log2_lt h0).2 h53
+    omega
+  have hlog1 : Nat.log2 1 = 0 := by simpa using Nat.log2_two_pow (n := 0)
+  generalize hLdef : n.log2 = L at hL1 hL2 hL
+  unfold Val.roundBin
+  rw [if_neg (by omega)]
+  simp only [hLdef, hlog1]
+  -- e0 = L - 53 < 0
+  have he0 : ((L : Int) - ((0 : Nat) : Int) - ((53 : Nat) : Int)) = (L : Int) - 53 := by omega
+  simp only [he0]
+  have hneg0 : ¬ ((L : Int) - 53 ≥ 0) := by omega
+  have hq0 : n * 2 ^ (-((L : Int) - 53)).toNat ≥ 2 ^ 53 := by
+    have : (-((L : Int) - 53)).toNat = 53 - L := by omega
+    rw [this]
+    calc 2 ^ 53 = 2 ^ L * 2 ^ (53 - L) := by rw [← Nat.pow_add]; congr 1; omega
+      _ ≤ n * 2 ^ (53 - L) := Nat.mul_le_mul_right _ hL1
+  simp only [hneg0, if_false, Nat.mul_one, Nat.div_one, hq0, if_true]
+  generalize hE1 : (L : Int) - 53 + 1 = E1
+  by_cases hE : E1 ≥ 0
+  · -- L = 52, E1 = 0
+    have hE0 : E1 = 0 := by omega
+    subst hE0
+    simp only [Int.toNat_zero, Nat.pow_zero, Nat.mul_one, Nat.div_one, Nat.mod_one, ge_iff_le, Int.le_refl, if_true]
+    have hq1 : ¬ (2 ^ 53 ≤ n) := by omega
+    simp only [hq1, if_false]
+    simp only [show ¬ ((0 : Int) < -1074) by decide, if_false, Int.le_refl, if_true, Int.toNat_zero, Nat.pow_zero, Nat.mul_one,
+      Nat.div_one, Nat.mod_one, Nat.mul_zero]
+    simp
+    intro h
+    exfalso
+    have : (2 : Nat) ^ 53 ≤ 2 ^ 1024 := Nat.pow_le_pow_right (by decide) (by decide)
+    omega
+  · have hk : (-E1).toNat = 52 - L := by omega
+    have hq1 : ¬ (n * 2 ^ (52 - L) ≥ 2 ^ 53) := by
+      have : n * 2 ^ (52 - L) < 2 ^ (L + 1) * 2 ^ (52 - L) := Nat.mul_lt_mul_of_pos_right hL2 (Nat.pow_pos (by decide))
+      have h2 : 2 ^ (L + 1) * 2 ^ (52 - L) = 2 ^ 53 := by rw [← Nat.pow_add]; congr 1; omega
+      omega
+    simp only [hE, if_false, hk, Nat.div_one, hq1]
+    have hlt : ¬ (E1 < -1074) := by omega
+    simp only [hlt, if_false, hE, hk, Nat.mod_one, Nat.mul_zero, Nat.div_one]
+    simp only [show ¬ ((0 : Nat) > 1) by decide, show ¬ ((0 : Nat) = 1) by decide, false_and, or_false, if_false, false_and]
+    have := mk_shift neg n (52 - L) 0 h0
+    have hE' : (0 : Int) - ((52 - L : Nat) : Int) = E1 := by omega
+    rw [hE'] at this
+    exact this
+
+theorem mk_ratOf (neg : Bool) (n : Nat) (h0 : n ≠ 0) :
+    (Val.mk neg n 0).ratOf = (n, 1) ∧ (Val.mk neg n 0).isFin = true ∧
+    Val.toInt32 (Val.mk neg n 0) = (if (if neg then -(n : Int) else (n : Int)) ≥ -2147483648 ∧ (if neg then -(n : Int) else (n : Int)) ≤ 2147483647
+      then some (if neg then -(n : Int) else (n : Int)) else none) := by
+  obtain ⟨k, h1, h2⟩ := stripTwos_value (n.log2 + 1) n 0
+  unfold Val.mk
+  rw [if_neg h0]
+  generalize Val.stripTwos (n.log2 + 1) n 0 = st at h1 h2
+  obtain ⟨m', e'⟩ := st
+  simp only at h1 h2 ⊢
+  have he : e' ≥ 0 := by omega
+  have hk : e'.toNat = k := by omega
+  refine ⟨?_, rfl, ?_⟩
+  · simp only [Val.ratOf, he, if_true, hk, h2]
+  · simp only [Val.toInt32, show ¬ (e' < 0) by omega, if_false, hk, h2]
+
+theorem pow10D_zero : pow10D 0 = Val.fin false 1 0 := by
+  have : pow10D 0 = Val.roundBin 53 (-1074) 1024 false 1 1 := by simp [pow10D, Val.ofDecimal]
+  rw [this, roundBin_nat false 1 (by decide) (by decide)]
+  decide
+
+/-- **spirit converts an integer token below 2^53 exactly** -/
+theorem scaled_int (neg : Bool) (n : Nat) (rest : List Char) (h0 : n ≠ 0) (h53 : n < 2 ^ 53) :
+    scaled neg n 0 rest = some (Val.mk neg n 0, rest) := by
+  unfold scaled
+  rw [if_neg (by omega), if_pos (by omega)]
+  obtain ⟨hr, hf, _⟩ := mk_ratOf false n h0
+  have hb : (Val.fin false 1 0).isFin = true := rfl
+  have hbr : (Val.fin false 1 0).ratOf = (1, 1) := by decide
+  simp only [Int.toNat_zero, pow10D_zero, Val.ofNatD, roundBin_nat false n h0 h53, Val.mulD, hf, hr, hb, hbr,
+    Bool.and_self, if_true, Nat.mul_one, roundBin_nat neg n h0 h53]
+
+theorem intDigits_eq (i : Int) : intDigits i = signOf (decide (i < 0)) ++ natDigits i.natAbs := by
+  unfold intDigits signOf
+  by_cases h : i < 0 <;> simp [h]
+
+/-- **an integer token (class label, `-1` / `+1`, an integer-valued cell) is read back exactly by `double_`**:
+`|i| < 2^53`, `i ≠ 0`, followed by anything that is not a digit, `.`, `e`, `E` -/
+theorem real_intDigits (i : Int) (rest : List Char) (h0 : i ≠ 0) (h53 : i.natAbs < 2 ^ 53) (hr : NumEnd rest) :
+    real (intDigits i ++ rest) = some (Val.ofInt i, rest) := by
+  obtain ⟨c0, t0, hct, _⟩ := natDigits_cons i.natAbs
+  have hd := natDigits_digits i.natAbs
+  rw [hct] at hd
+  have h := real_int (decide (i < 0)) c0 t0 rest rest 0 hd hr.noDigit (numEnd_not_dot hr) (exponent_none rest hr)
+  rw [← hct, foldl_natDigits, scaled_int _ _ _ (by omega) h53] at h
+  rw [intDigits_eq, List.append_assoc, hct, List.cons_append]
+  exact h
+
+theorem svmPairs_lead_space (f : Nat) (Z : List Char) (acc : List (Nat × Val)) :
+    (svmPairs f (' ' :: Z) acc).1 = (svmPairs f Z acc).1 ∧
+    ((svmPairs f Z acc).2 = [] → skipSpace (svmPairs f (' ' :: Z) acc).2 = []) := by
+  cases f with
+  | zero =>
+    simp only [svmPairs]
+    exact ⟨trivial, fun h => by subst h; simp [skipSpace, isSpace]⟩
+  | succ f =>
+    have hsk : skipSpace (' ' :: Z) = skipSpace Z := by simp [skipSpace, isSpace]
+    have hsp : ∀ Z' : List Char, Z' = [] → skipSpace (' ' :: Z') = [] := by
+      intro Z' h; subst h; simp [skipSpace, isSpace]
+    simp only [svmPairs, hsk]
+    split
+    · exact ⟨rfl, fun h => hsp Z h⟩
+    · split
+      · split
+        · exact ⟨rfl, fun h => by rw [h]; rfl⟩
+        · exact ⟨rfl, fun h => hsp Z h⟩
+      · exact ⟨rfl, fun h => hsp Z h⟩
+
+/-- one record of `exportSparseData` for class labels: label token, blank, entries -/
+theorem svmLine_class (i : Int) (feats : List Entry) (h0 : i ≠ 0) (h53 : i.natAbs < 2 ^ 53)
+    (h : ∀ q ∈ feats, q.1 + 1 < 4294967296 ∧ isDouble q.2.1 = true ∧ readBack (svmNum q.2.1) = some q.2.2) :
+    svmLine (intDigits i ++ [' '] ++ svmFeats (feats.map fun q => (q.1, q.2.1)))
+      = some (Val.ofInt i, feats.map fun q => (q.1 + 1, q.2.2)) := by
+  have hne : intDigits i ≠ [] := by
+    rw [intDigits_eq]
+    obtain ⟨c, t, hct, _⟩ := natDigits_cons i.natAbs
+    rw [hct]; simp
+  obtain ⟨c1, t1, hc1t⟩ : ∃ c t, intDigits i = c :: t := by
+    cases hh : intDigits i with
+    | nil => exact absurd hh hne
+    | cons c t => exact ⟨c, t, rfl⟩
+  have hc1 : isSpace c1 = false := (numChar_props (AllNum.intDigits i c1 (by rw [hc1t]; simp))).1
+  have hsk : skipSpace (intDigits i ++ [' '] ++ svmFeats (feats.map fun q => (q.1, q.2.1)))
+      = intDigits i ++ (' ' :: svmFeats (feats.map fun q => (q.1, q.2.1))) := by
+    rw [List.append_assoc, hc1t, List.cons_append, skipSpace_cons hc1]; rfl
+  have hend : NumEnd (' ' :: svmFeats (feats.map fun q => (q.1, q.2.1))) := by
+    intro c t hh; injection hh with h1 _; subst h1; decide
+  have hre := real_intDigits i (' ' :: svmFeats (feats.map fun q => (q.1, q.2.1))) h0 h53 hend
+  have hlen : feats.length < (intDigits i ++ [' '] ++ svmFeats (feats.map fun q => (q.1, q.2.1))).length + 1 := by
+    have := svmFeats_length (feats.map fun q => (q.1, q.2.1))
+    simp only [List.length_map, List.length_append] at this ⊢
+    omega
+  have hp := svmPairs_feats feats _ [] hlen h
+  have hls := svmPairs_lead_space ((intDigits i ++ [' '] ++ svmFeats (feats.map fun q => (q.1, q.2.1))).length + 1)
+    (svmFeats (feats.map fun q => (q.1, q.2.1))) []
+  rw [hp] at hls
+  unfold svmLine
+  rw [hsk, hre]
+  simp only
+  generalize svmPairs _ (' ' :: svmFeats (feats.map fun q => (q.1, q.2.1))) [] = res at hls
+  obtain ⟨ps, r⟩ := res
+  simp only at hls
+  have h1 := hls.1
+  simp only [List.reverse_nil, List.nil_append] at h1
+  simp [hls.2 trivial, h1]
+
+/-- the label `exportSparseData` writes for class `l`: `2l - 1` with `oneMinusOne` (two classes), else `l + 1` -/
+def svmLabelOut (omo : Bool) (l : Nat) : Int := if omo then 2 * (l : Int) - 1 else (l : Int) + 1
+
+theorem svmLabelOut_props (omo : Bool) (l : Nat) (hl : l + 1 < 2 ^ 31) (ho : omo = true → l ≤ 1) :
+    svmLabelOut omo l ≠ 0 ∧ (svmLabelOut omo l).natAbs < 2 ^ 53 ∧ -2147483648 ≤ svmLabelOut omo l ∧ svmLabelOut omo l ≤ 2147483647 := by
+  unfold svmLabelOut
+  have : (2 : Nat) ^ 31 = 2147483648 := by decide
+  have h53 : (2 : Nat) ^ 53 = 9007199254740992 := by decide
+  cases omo
+  · simp only [if_false, Bool.false_eq_true]; omega
+  · have := ho rfl
+    simp only [if_true]; omega
+
+theorem svmLabelOut_tok (omo : Bool) (l : Nat) :
+    (if omo then intDigits (2 * (l : Int) - 1) else natDigits (l + 1)) = intDigits (svmLabelOut omo l) := by
+  unfold svmLabelOut
+  cases omo
+  · simp only [Bool.false_eq_true, if_false]
+    rw [intDigits_eq]
+    have h1 : decide ((l : Int) + 1 < 0) = false := by simp; omega
+    have h2 : ((l : Int) + 1).natAbs = l + 1 := by omega
+    rw [h1, h2]; rfl
+  · rfl
+
+/-- `Val.toInt32 (Val.ofInt i) = some i` for every `int` -/
+theorem toInt32_ofInt (i : Int) (h0 : i ≠ 0) (hlo : -2147483648 ≤ i) (hhi : i ≤ 2147483647) :
+    Val.toInt32 (Val.ofInt i) = some i := by
+  unfold Val.ofInt
+  rw [(mk_ratOf (decide (i < 0)) i.natAbs (by omega)).2.2]
+  by_cases h : i < 0
+  · simp only [h, decide_true, if_true]
+    have : -(i.natAbs : Int) = i := by omega
+    rw [this, if_pos ⟨hlo, hhi⟩]
+  · simp only [h, decide_false, Bool.false_eq_true, if_false]
+    have : (i.natAbs : Int) = i := by omega
+    rw [this, if_pos ⟨hlo, hhi⟩]
+
+/-- a labelled element of a LibSVM classification file with the values that are read back -/
+abbrev ClsPoint := Nat × List Entry
+
+/-- **byte-level round trip of `exportSparseData` (class labels, `sortLabels = false`) through the record reader** -/
+theorem svmRecords_svmClass (pts : List ClsPoint) (omo : Bool)
+    (h : ∀ p ∈ pts, p.1 + 1 < 2 ^ 31 ∧
+      ∀ q ∈ p.2, q.1 + 1 < 4294967296 ∧ isDouble q.2.1 = true ∧ readBack (svmNum q.2.1) = some q.2.2) :
+    svmRecords (svmClass (pts.map fun p => (p.1, p.2.map fun q => (q.1, q.2.1))) omo false)
+      = some (pts.map fun p =>
+          (Val.ofInt (svmLabelOut (omo && (if pts.isEmpty then 1 else numberOfClasses (pts.map (·.1))) == 2) p.1),
+           p.2.map fun q => (q.1 + 1, q.2.2))) := by
+  generalize hO : (omo && (if pts.isEmpty then 1 else numberOfClasses (pts.map (·.1))) == 2) = O
+  have hform : svmClass (pts.map fun p => (p.1, p.2.map fun q => (q.1, q.2.1))) omo false
+      = (pts.map fun p => intDigits (svmLabelOut O p.1) ++ [' '] ++ svmFeats (p.2.map fun q => (q.1, q.2.1))).flatMap
+          fun l => l ++ ['\n'] := by
+    simp only [svmClass, List.isEmpty_map, List.map_map, Function.comp_def, hO, Bool.false_eq_true, if_false, svmLabelOut_tok,
+      List.flatMap_map]
+  unfold svmRecords
+  rw [hform, splitLines_lines _ []]
+  · simp only [List.reverse_nil, List.nil_append]
+    rw [List.mapM_map]
+    refine mapM_some _ _ pts (fun p hp => ?_)
+    have ho : O = true → p.1 ≤ 1 := by
+      intro hOt
+      rw [hOt] at hO
+      simp only [Bool.and_eq_true, beq_iff_eq] at hO
+      have hne : pts.isEmpty = false := by
+        cases hpe : pts.isEmpty with
+        | false => rfl
+        | true => rw [hpe] at hO; simp at hO
+      rw [hne] at hO
+      simp only [Bool.false_eq_true, if_false] at hO
+      have := Svm.numberOfClasses_gt (pts.map (·.1)) p.1 (List.mem_map.mpr ⟨p, hp, rfl⟩)
+      omega
+    obtain ⟨h0, h53, _, _⟩ := svmLabelOut_props O p.1 (h p hp).1 ho
+    exact svmLine_class (svmLabelOut O p.1) p.2 h0 h53 (h p hp).2
+  · intro l hl
+    obtain ⟨p, hp, rfl⟩ := List.mem_map.mp hl
+    refine ⟨by simp, ?_⟩
+    intro c hc
+    simp only [List.mem_append, List.mem_singleton] at hc
+    rcases hc with (hc | rfl) | hc
+    · exact (numChar_props (AllNum.intDigits _ c hc)).2.1
+    · decide
+    · exact svmFeats_no_nl _ c hc
 
 end SharkVerif.Import.Export
